@@ -471,6 +471,10 @@ func (s *reprovider) Reprovide(ctx context.Context) error {
 	if s.throughputCallback != nil && s.throughputMinimumProvides < batchSize {
 		batchSize = s.throughputMinimumProvides
 	}
+	if batchSize == 0 {
+		// A batch size of 0 would never read from the key channel and loop forever.
+		batchSize = 1
+	}
 
 	cids := make(map[cid.Cid]struct{}, min(batchSize, 1024))
 	allCidsProcessed := false
